@@ -68,7 +68,7 @@ func VC06_Insert() {
 	head := ""
 	for i, v := range vias {
 		if i > 0 && rt.Bool("via-comma") {
-			head = head[:len(head)-2] + "," + v + "\r\n"
+			head = head[:len(head)-2] + []string{",", ", "}[rt.Choice("via-comma-blank", 2)] + v + "\r\n"
 		} else {
 			head += []string{"Via", "v"}[rt.Choice("vianame", 2)] + ": " + v + "\r\n"
 		}
@@ -76,7 +76,7 @@ func VC06_Insert() {
 	rrBlock := ""
 	for i, r := range rrs {
 		if i > 0 && rt.Bool("rr-comma") {
-			rrBlock = rrBlock[:len(rrBlock)-2] + "," + r + "\r\n"
+			rrBlock = rrBlock[:len(rrBlock)-2] + []string{",", ", "}[rt.Choice("rr-comma-blank", 2)] + r + "\r\n"
 		} else {
 			rrBlock += "Record-Route: " + r + "\r\n"
 		}
@@ -158,6 +158,53 @@ func VC06_Insert() {
 	}
 	if rt.Symbolic() {
 		rt.Assert(rt.UUIDCalls()-before == 1, "the random source is consulted exactly once per relayed request")
+	}
+	rt.Reach("end")
+}
+
+// VC06_FailingBackend: the backend a request is handed to may refuse it (closed socket, dead TCP
+// peer) — pinned by a dialog or chosen by the rotation. Whatever any backend then receives for
+// that request still carries exactly ONE Via and at most one Record-Route entry of the proxy.
+func VC06_FailingBackend() {
+	L := rt.Param("L")
+	must := rt.Bool("must-record-route")
+	w := newWorld(worldOpts{nBackends: 2, mustRecordRoute: must})
+	d := genDlg(L)
+	inDialog := rt.Bool("in-dialog")
+	failing := 0
+	if inDialog {
+		failing = establish(w, d, 200)
+		if failing < 0 {
+			return
+		}
+	} else {
+		failing = (w.rr.index + 1) % 2 // the backend the rotation picks next
+	}
+	w.bs[failing].fail = true
+	before := counts(w)
+	method := []string{"INFO", "BYE", "MESSAGE"}[rt.Choice("method", 3)]
+	rt.Assert(w.deliver(c04Request(method, d, false, inDialog, ""), "10.0.2.2", 5060, true), "request decodes")
+	_, n := newSends(w, before)
+	rt.Assert(n <= 1, "the request is handed to at most one backend")
+	own := "SIP/2.0/UDP " + wListenAddr + ":" + itoa(wListenPort) + ";branch=z9hG4bK"
+	for bi, b := range w.bs {
+		for i := before[bi]; i < len(b.sent); i++ {
+			m := refRead(b.sent[i])
+			nv := 0
+			for _, v := range m.listOf("via") {
+				if len(v) >= len(own) && v[:len(own)] == own {
+					nv++
+				}
+			}
+			nr := 0
+			for _, r := range m.listOf("record-route") {
+				if r == "<sip:"+wListenAddr+":"+itoa(wListenPort)+";lr>" {
+					nr++
+				}
+			}
+			rt.Assert(nv == 1, "after a refused hand-over: exactly one Via of the proxy on what a backend receives")
+			rt.Assert(nr <= 1 && (nr == 1) == must, "after a refused hand-over: Record-Route by policy, once")
+		}
 	}
 	rt.Reach("end")
 }
